@@ -107,6 +107,7 @@ func C13(c *Ctx) {
 	c13NilMaps(c, g)
 	c13ConstIndex(c, g)
 	c13SubtractedSubscripts(c, g)
+	c13FailedAssertions(c, g)
 	c13Exit(c, g)
 	if c.Thorough() {
 		c13CrossRef(c, g)
